@@ -1815,7 +1815,18 @@ class Model:
             Self: The current instance with the added surrogate model.
 
         """
-        self._insert_id(name=name, ctx="surrogate")
+        # Insert ids. If one of them is rejected, the ones inserted before it are
+        # removed again, such that a rejected surrogate leaves the model unchanged
+        new_outputs = list(surrogate.outputs if outputs is None else outputs)
+        inserted: list[str] = []
+        try:
+            for i in (name, *new_outputs):
+                self._insert_id(name=i, ctx="surrogate")
+                inserted.append(i)
+        except (KeyError, NameError):
+            for i in inserted:
+                self._remove_id(name=i)
+            raise
 
         # Update surrogate if necessary
         if args is not None:
@@ -1824,10 +1835,6 @@ class Model:
             surrogate.outputs = outputs
         if stoichiometries is not None:
             surrogate.stoichiometries = stoichiometries
-
-        # Insert ids
-        for output in surrogate.outputs:
-            self._insert_id(name=output, ctx="surrogate")
 
         self._surrogates[name] = surrogate
         return self
@@ -1865,6 +1872,23 @@ class Model:
         if surrogate is None:
             surrogate = self._surrogates[name]
 
+        # Update ids. If a new output name is rejected, the previous ids are put
+        # back, such that a rejected update leaves the model unchanged
+        new_outputs = list(surrogate.outputs if outputs is None else outputs)
+        for i in old_outputs:
+            self._remove_id(name=i)
+        inserted: list[str] = []
+        try:
+            for i in new_outputs:
+                self._insert_id(name=i, ctx="surrogate")
+                inserted.append(i)
+        except (KeyError, NameError):
+            for i in inserted:
+                self._remove_id(name=i)
+            for i in old_outputs:
+                self._insert_id(name=i, ctx="surrogate")
+            raise
+
         # Update existing / passed surrogate (other args always take precendece)
         if args is not None:
             surrogate.args = args
@@ -1872,12 +1896,6 @@ class Model:
             surrogate.outputs = outputs
         if stoichiometries is not None:
             surrogate.stoichiometries = stoichiometries
-
-        # Update ids
-        for i in old_outputs:
-            self._remove_id(name=i)
-        for i in surrogate.outputs:
-            self._insert_id(name=i, ctx="surrogate")
 
         self._surrogates[name] = surrogate
         return self
